@@ -99,6 +99,9 @@ fn features(v: &J, f: &mut BTreeSet<String>) {
             if let Some(J::Array(rows)) = mo.get("rows") {
               if rows.len() >= 2 { f.insert("multirow".into()); }
               if rows.is_empty() { f.insert("empty-matrix".into()); }
+              let lens: Vec<usize> = rows.iter().map(|r| r.get("columns").and_then(|c| c.as_array()).map(|a| a.len()).unwrap_or(0)).collect();
+              if lens.iter().any(|l| *l < lens[0]) { f.insert("jagged".into()); }
+              if lens.iter().any(|l| *l > lens[0]) { f.insert("jagged-long".into()); }
             }
           }
           ("FunctionCall", J::Object(fo)) => {
@@ -107,6 +110,7 @@ fn features(v: &J, f: &mut BTreeSet<String>) {
             }
           }
           ("increment", x) if !x.is_null() => { f.insert("range-inc".into()); }
+          ("subtitle", x) if !x.is_null() => { f.insert("section-subtitle".into()); }
           ("Map", J::Object(mo)) => { if let Some(J::Array(e)) = mo.get("elements") { if e.is_empty() { f.insert("empty-map".into()); } } }
           ("Record", J::Array(_)) => { f.insert("kind-record".into()); }
           ("Table", J::Array(_)) => { f.insert("kind-table".into()); }
